@@ -491,7 +491,7 @@ pub fn run(ctx: &Ctx) -> Report {
     let v = search(
         ctx,
         "cat",
-        ctx.tier.pick(200_000, 5_000_000),
+        ctx.tier.pick(1_000_000, 10_000_000),
         || {
             (0u8..26).prop_flat_map(|i| {
                 let cat = Cat(i);
@@ -545,7 +545,7 @@ pub fn run(ctx: &Ctx) -> Report {
     rep.push(v);
 
     // 6. the gate: insert / update on a real package
-    let v = search(ctx, "gate", ctx.tier.pick(3_000, 100_000), gate_strategy, |g: &GateCase, st| {
+    let v = search(ctx, "gate", ctx.tier.pick(30_000, 300_000), gate_strategy, |g: &GateCase, st| {
         st.eval();
         let n = g.cols.len();
         let cand_bad = g.cand.len() != n || g.cols.iter().zip(g.cand.iter()).any(|(c, v)| c.valid_ref(v) == Some(false));
